@@ -578,6 +578,70 @@ def clause_g(rep, F):
                       "the ':' / ',' / closing bracket of the enclosing construct and the parser loses it", site=F.fns[key].span, detail={"paths": bad[:3]})
     rep.floor("handler outcomes that report an omitted node", n, 10)
     rep.floor("omitted keys / values with a known next state", npair, 4)
+    omitted_token_sets(rep, F, E, table)
+
+
+# After an indicator token the node is left out exactly when the token that follows cannot start a node but may legally follow.  The sets are
+# those of the token grammar the parser implements (libyaml's, spelled out in the comments of yaml_parser_parse_* and reproduced in
+# YAML 1.2.2 chapter 7/8 productions): state -> (indicator token, tokens after which the node is omitted)
+#   block_sequence      ::= BLOCK-SEQUENCE-START (BLOCK-ENTRY block_node?)* BLOCK-END
+#   indentless_sequence ::= (BLOCK-ENTRY block_node?)+                       (followed by KEY / VALUE / BLOCK-END of the parent mapping)
+#   block_mapping       ::= BLOCK-MAPPING-START ((KEY block_node_or_indentless_sequence?)? (VALUE block_node_or_indentless_sequence?)?)* BLOCK-END
+#   flow_mapping        ::= FLOW-MAPPING-START (flow_mapping_entry FLOW-ENTRY)* flow_mapping_entry? FLOW-MAPPING-END
+#   flow_mapping_entry / flow_sequence_entry ::= flow_node | KEY flow_node? (VALUE flow_node?)?
+OMITTED_AFTER = {
+    "BlockSequenceEntry": ("BlockEntry", {"BlockEntry", "BlockEnd"}),
+    "IndentlessSequenceEntry": ("BlockEntry", {"BlockEntry", "Key", "Value", "BlockEnd"}),
+    "BlockMappingKey": ("Key", {"Key", "Value", "BlockEnd"}),
+    "BlockMappingValue": ("Value", {"Key", "Value", "BlockEnd"}),
+    "FlowMappingKey": ("Key", {"Value", "FlowEntry", "FlowMappingEnd"}),
+    "FlowMappingValue": ("Value", {"FlowEntry", "FlowMappingEnd"}),
+    "FlowSequenceEntryMappingKey": (None, {"Value", "FlowEntry", "FlowSequenceEnd"}),
+    "FlowSequenceEntryMappingValue": ("Value", {"FlowEntry", "FlowSequenceEnd"}),
+}
+NODE_START = {"Alias", "Anchor", "Tag", "Scalar", "FlowSequenceStart", "FlowMappingStart", "BlockSequenceStart", "BlockMappingStart"}
+
+
+def omitted_token_sets(rep, F, E, table, rule="omitted-node-token-set"):
+    """(g') the tokens after which a handler reports an omitted node: for each state of the table above, the kinds of the token looked at
+    right after the indicator on the outcomes that report an empty scalar must contain every token of the grammar's set (a missing one
+    sends a legal document to parse_node, which rejects it or reads the parent's next entry as this node) and no token that starts a
+    node (that node would be dropped).  Decided on the E5 outcomes of the handler; tokens that cannot legally follow are C06's."""
+    from engine import e5
+    n = 0
+    for st, (ind, want) in sorted(OMITTED_AFTER.items()):
+        d = table.get(st)
+        if d is None or d[0] == "unreachable" or d[0] not in F.fns:
+            raise facts.MissingAnchor("state %s has no handler in the dispatch table" % st)
+        got = set()
+        for o in E.outcomes(d[0], tuple(d[1])):
+            if o.get("kind") != "return":
+                continue
+            r = o["result"]
+            if r is e5.TOP or r[0] != "ok" or r[1] is e5.TOP or r[1][0] != "tuple" or r[1][1] is e5.TOP or r[1][1][0] != "event":
+                continue
+            ev = r[1][1]
+            if not (ev[1] == "Scalar" and ev[2] == ("empty",)):
+                continue
+            toks = [t for t in o.get("toks", []) if t is not None]
+            if not toks:
+                continue
+            names = [frozenset(E.tok_names[k] for k in t) for t in toks]
+            if ind is None:
+                if len(names) == 1:
+                    got |= names[0]
+            elif len(names) >= 2 and names[-2] == frozenset([ind]):
+                got |= names[-1]
+        n += 1
+        missing = sorted(want - got)
+        extra = sorted(got & NODE_START)
+        rep.check(not missing and not extra, rule, st,
+                  "state %s: after %s the node is reported as omitted when the next token is one of %s; the grammar needs %s%s%s" % (
+                      st, ind or "the start of the entry", sorted(got), sorted(want),
+                      (": with %s next, a left-out node is no longer a null scalar (the document is rejected or the following entry is taken for this node)" % " / ".join(missing)) if missing else "",
+                      (": %s starts a node, which is dropped" % " / ".join(extra)) if extra else ""),
+                  site=F.fns[d[0]].span, detail={"reported_after": sorted(got)})
+    rep.floor("states whose omitted-node token set is compared with the grammar", n, 8)
 
 
 # where a node may start an indentless sequence (a block sequence at the indentation of its parent key) and whether it is in block context:
